@@ -96,6 +96,19 @@ def scenarios(ctx, n, malformed_share=0.3):
     scab, _ = minicab.build([(0, [(b"payload-bytes", 13)])], [dict(name=b"p.bin", length=13, offset=0, folder=0)])
     out.append(([f"file s.bin {(b'junkMSjunk' + scab + b'MSCFtrail').hex()}", "new cab", "param i0 SEARCHBUF 16", "search i0 s.bin", "extract i0 h0 0 o0", "close i0 h0", "destroy i0"],
                 dict(family="cab.search-small", how="directed", kind="cab", exhaustive=True)))
+    # a file entry whose folder index names no folder (neither a real index nor one of the three CONTINUED codes), with a good
+    # name: the entry is discarded (salvage) or the cabinet refused (strict) - whatever was allocated for it must go too
+    import struct as _st
+    bcab, _ = minicab.build([(0, [(b"0123456789abcdef", 16)])], [dict(name=b"first.txt", length=6, offset=0, folder=0), dict(name=b"badidx.txt", length=5, offset=6, folder=0),
+                                                                 dict(name=b"last.txt", length=5, offset=11, folder=0)])
+    bcab = bytearray(bcab); k = bcab.index(b"badidx.txt")
+    for bad in (1, 7, 0xFFFC):
+        _st.pack_into("<H", bcab, k - 16 + 8, bad)
+        for salv in (0, 1):
+            out.append(([f"file b.cab {bytes(bcab).hex()}", "new cab", f"param i0 SALVAGE {salv}", "open i0 b.cab", "extract i0 h0 0 o0", "extract i0 h0 1 o1", "close i0 h0",
+                         "destroy i0"], dict(family="cab.bad-folder-index", how="directed", kind="cab", salvage=bool(salv))))
+            out.append(([f"file b.cab {bytes(bcab).hex()}", "new cab", f"param i0 SALVAGE {salv}", "search i0 b.cab", "close i0 h0",
+                         "destroy i0"], dict(family="cab.bad-folder-index-search", how="directed", kind="cab", salvage=bool(salv))))
     for rt in ("entry16", "entry12"):
         for _ in range(20):
             try:
